@@ -16,6 +16,8 @@ var verifC02Pool = []string{
 	`/p/{num:[0-9]{2}}`, `/{any:\d+}`, `/a/{all:[a-z]+}`,
 	// dynamic patterns without any variable (optional part only)
 	"/ab[/x]", "/a[.html]", "/a/b[/c[/d]]",
+	// variables that can span several segments without saying so with '.' or '/' in their regex
+	`/f/{p:[^?#]+}`, `/w/{t:\S+}`, `/{ns:\D+}/{id:\d+}`, `/n/{v:\d.*\d}`,
 	// custom regexes made of several non-capturing groups (sequence, alternation)
 	`/i/{file:(?:[a-z]+)\.(?:jpg|png)}`, `/v/{ver:(?:v\d)|(?:new)}/d`,
 }
